@@ -1213,6 +1213,8 @@ def selftest():
     YML_ = "phonopy/interface/phonopy_yaml.py"
     b("dataset section only under the displacements setting", YML_, "        lines = []\n        if (\n            self._dumper_settings[\"force_sets\"]\n            or self._dumper_settings[\"displacements\"]\n        ):\n            disp_yaml_lines = self._displacements_yaml_lines(\n                with_forces=self._dumper_settings[\"force_sets\"]\n            )\n            lines += disp_yaml_lines\n        return lines\n", "        if not self._dumper_settings[\"displacements\"]:\n            return []\n        return self._displacements_yaml_lines(\n            with_forces=self._dumper_settings[\"force_sets\"]\n        )\n", "R16l", "_dataset_yaml_lines")
     n("dataset section with early return on both settings off", YML_, "        lines = []\n        if (\n            self._dumper_settings[\"force_sets\"]\n            or self._dumper_settings[\"displacements\"]\n        ):\n            disp_yaml_lines = self._displacements_yaml_lines(\n                with_forces=self._dumper_settings[\"force_sets\"]\n            )\n            lines += disp_yaml_lines\n        return lines\n", "        with_forces = self._dumper_settings[\"force_sets\"]\n        if not (with_forces or self._dumper_settings[\"displacements\"]):\n            return []\n        return self._displacements_yaml_lines(with_forces=with_forces)\n")
+    b("hdf5 force constants read without the calculator of the object", "phonopy/cui/load_helper.py", "            p2s_map=p2s_map,\n            calculator=phonon.calculator,\n        )", "            p2s_map=p2s_map,\n        )", "R16y.ctxparam", "_read_force_constants_file")
+    n("hdf5 force constants read with the calculator through a local", "phonopy/cui/load_helper.py", "    p2s_map = phonon.primitive.p2s_map\n    if len(dot_split) > 1 and dot_split[-1] == \"hdf5\":\n        _fc = read_force_constants_from_hdf5(\n            filename=force_constants_filename,\n            p2s_map=p2s_map,\n            calculator=phonon.calculator,\n        )", "    p2s_map = phonon.primitive.p2s_map\n    calc = phonon.calculator\n    if len(dot_split) > 1 and dot_split[-1] == \"hdf5\":\n        _fc = read_force_constants_from_hdf5(\n            filename=force_constants_filename,\n            p2s_map=p2s_map,\n            calculator=calc,\n        )")
     b("load(): file without a primitive matrix falls through to the automatic guess", "phonopy/cui/load.py", "        else:\n            pmat = phpy_yaml.primitive_matrix\n", "        elif phpy_yaml.primitive_matrix is not None:\n            pmat = phpy_yaml.primitive_matrix\n        else:\n            pmat = get_primitive_matrix(\"auto\", symprec=symprec)\n", "R16r", "load")
     n("load(): primitive matrix chosen with the arms exchanged", "phonopy/cui/load.py", "        if primitive_matrix is not None:\n            pmat = get_primitive_matrix(primitive_matrix, symprec=symprec)\n        else:\n            pmat = phpy_yaml.primitive_matrix\n", "        if primitive_matrix is None:\n            pmat = phpy_yaml.primitive_matrix\n        else:\n            pmat = get_primitive_matrix(primitive_matrix, symprec=symprec)\n")
     b("magnetic moment read under a truthiness test", ATOMS, '            if "magnetic_moment" in x:\n                magnetic_moments.append(x["magnetic_moment"])', '            if x.get("magnetic_moment"):\n                magnetic_moments.append(x["magnetic_moment"])', "R16q", "magnetic_moment")
